@@ -64,6 +64,7 @@ GENERATORS = [
     ("schema", "gen/schema.py", ["coq/Gen/Schema.v"]),
     ("static", "gen/static.py", ["coq/Gen/Static.v"]),
     ("flow", "gen/flow.py", ["coq/Gen/Flow.v"]),
+    ("frame", "gen/frame.py", ["coq/Gen/Frame.v"]),
 ]
 
 
